@@ -246,8 +246,10 @@ class Gen:
         a, b = self.int_expr(ids, depth + 1), self.int_expr(ids, depth + 1)
         if op in ("\\", "%"):
             b = str(r.choice([1, 2, 3, 7]))
-        if op == "<<":
-            b = str(r.randint(0, 8))
+        if op == "<<":   # exec.c shifts unchecked: keep both operands small non-negative constants
+            a, b = str(r.choice([0, 1, 3, 16, 255])), str(r.randint(0, 8))
+        if op == "*":
+            b = str(r.choice([0, 1, 2, 3, 16]))   # no int64 overflow at run time (exec.c multiplies unchecked; C04's subject, not ours)
         return "(%s %s %s)" % (a, op, b)
 
     def cond(self, ids, rules_before, depth=0):
